@@ -436,6 +436,10 @@ def make_dssr(rng, names):
         if not ok or r < 0.12:
             return rng.choice(["Z.A999", "A.X1", "", "B.G/5", None])
         n = rng.choice(names)
+        if r > 0.88:
+            # near misses of a real name: another letter case, surrounding blanks, a missing or doubled separator -
+            # unresolvable unless exactly such a residue exists (the monitor resolves names by exact match)
+            n = rng.choice([n.lower(), n.upper(), n.swapcase(), " " + n, n + " ", n.replace(".", "", 1), n.replace(".", "..", 1), n[:-1] if len(n) > 3 else n + "0"])
         return (rng.choice(["", "1:", "2:"]) + n)
 
     def lw():
